@@ -119,6 +119,11 @@ def run_case(case, tmp):
                 buf.save_state(path)
                 cap = op[1]
                 buf = make(cap, reload=True)
+                # the buffer that is loaded into need not be empty: loading REPLACES its content
+                for j in range(op[2] if len(op) > 2 else 0):
+                    rnd.r, rnd.idx, rnd.calls = 0.0, 0, []
+                    junk = 9000 + j
+                    buf.add({f"k{k}": junk * 16 + k for k in K} if is_dict else junk)
                 buf.load_state(path)
                 out = ["saveload"]
             obs.append([out, view(buf)])
